@@ -49,6 +49,7 @@ let run_case (c : case) =
     | "keys" :: ks -> keys := Array.of_list (L.map z_of_string ks)
     | ["nlists"; n] -> nlists := int_of_string n
     | "vsign" :: _ -> ()
+    | "offs" :: _ -> ()       (* which node member each list is threaded through: invisible to the model *)
     | "cmpmode" :: _ -> ()      (* how the driver's comparator scales its result; the model sees only signs *)
     | _ ->
       let key n = let i = int_of_nat n in if i < Array.length !keys then !keys.(i) else BinNums.Z0 in
